@@ -805,6 +805,10 @@ func buildInboundClustersFromSidecar(cb *ClusterBuilder, proxy *model.Proxy,
 	_, actualLocalHosts := getWildcardsAndLocalHost(proxy.GetIPMode())
 	sidecarScope := proxy.SidecarScope
 	for _, ingressListener := range sidecarScope.Sidecar.Ingress {
+		if ingressListener.GetPort() == nil {
+			// rejected by validation; an ingress listener without a port defines nothing
+			continue
+		}
 		// LDS would have setup the inbound clusters
 		// as inbound|portNumber|portName|Hostname[or]SidecarScopeID
 		listenPort := &model.Port{
